@@ -23,6 +23,7 @@ from __future__ import annotations
 
 import ast
 
+from ..astutil import first_stmt, last_stmt  # noqa: F401
 from ..astutil import (ancestors, call_name, calls_in, guards_of, kwarg, norm, single_def_value,
                        stores_to, walk_no_nested)
 from ..cfg import CFG
@@ -117,7 +118,7 @@ def run(ctx):
                             resets = any(isinstance(s, ast.Assign) and norm(s.targets[0]) == GLOBAL and
                                          isinstance(s.value, ast.Constant) and s.value.value is None
                                          for s in h.body)
-                            rer = h.body and isinstance(h.body[-1], ast.Raise)
+                            rer = isinstance(last_stmt(h.body), ast.Raise)
                             if resets and rer and (h.type is None or norm(h.type) in ('BaseException', 'Exception')):
                                 ok_h = True
                 if ok_h:
@@ -315,8 +316,8 @@ def run(ctx):
     loop = next((n for n in walk_no_nested(du.node) if isinstance(n, ast.For)), None)
     ok = False
     why = 'deep_update shape not recognised'
-    if loop is not None and 'overlay.items()' in norm(loop.iter) and loop.body and isinstance(loop.body[0], ast.If):
-        iff = loop.body[0]
+    if loop is not None and 'overlay.items()' in norm(loop.iter) and isinstance(first_stmt(loop.body), ast.If):
+        iff = first_stmt(loop.body)
         t = norm(iff.test)
         rec = any(call_name(c) == 'deep_update' for s in iff.body for c in calls_in(s))
         both = 'isinstance(base[key], dict)' in t and 'isinstance(value, dict)' in t and 'key in base' in t
